@@ -378,6 +378,48 @@ def call_text(module, name, idxs, pool):
         defs, "".join(" p%d" % i for i in idxs), head)
 
 
+FRESH = None
+
+
+def fresh_exprs():
+    """[(constructor expression, length)] of the collections the indexed sweep (mode 2) builds afresh for every call"""
+    global FRESH
+    if FRESH is None:
+        rc, out = C.sh([BIN, "fresh"], timeout=60)
+        FRESH = [(f[2], int(f[1])) for f in (l.split("\t", 2) for l in out.splitlines()) if len(f) == 3]
+    return FRESH
+
+
+def didx(d, n):
+    return [0, 1, n - 1, n, n + 1, 2 * n, n + 39][d]
+
+
+def indexed_total(arity):
+    nf = len(fresh_exprs())
+    return {1: nf, 2: nf * 14, 3: nf * 70}[arity]
+
+
+def indexed_call_text(module, name, arity, k):
+    """source of one application of the indexed sweep: a freshly built collection (a temporary: uniquely referenced)
+    and index arguments derived from its length"""
+    fr = fresh_exprs()
+    head = "(%%module-get%% %%-builtin-module-%s '%s)" % (module, name)
+    if arity == 1:
+        args = [fr[k][0]]
+    elif arity == 2:
+        e, n = fr[k // 14]
+        d, swap = (k // 2) % 7, k % 2
+        args = [e, str(didx(d, n))] if swap == 0 else [str(didx(d, n)), e]
+    else:
+        e, n = fr[k // 70]
+        x = k % 70
+        if x < 49:
+            args = [e, str(didx(x // 7, n)), str(didx(x % 7, n))]
+        else:
+            args = [e, str(didx((x - 49) // 3, n)), ["0", "#\\a", "'sym"][(x - 49) % 3]]
+    return "(define (c07-once f) (with-handler (lambda (e) (list 'error e)) (f %s)))\n(c07-once %s)" % (" ".join(args), head)
+
+
 def run_builtins(ctx, classes, stats):
     fns = list_builtins()
     pool = pool_exprs()
@@ -407,6 +449,11 @@ def run_builtins(ctx, classes, stats):
                 m2, tot2 = (1, n * n) if (a == 3 and w == 1 and not quick) else (mode, total)
                 for s in range(0, tot2, step):
                     jobs.append((name, module, a, m2, s, min(tot2, s + step), w))
+            # the indexed sweep: freshly built collections (unique references: the in-place paths), indices derived
+            # from their lengths (len-1, len, len+1, 2*len, ...)
+            if a in (1, 2, 3):
+                for w in ([(sum(map(ord, name)) + a + ctx.seed + 1) % 2] if quick else [0, 1]):
+                    jobs.append((name, module, a, 2, 0, indexed_total(a), w))
     stats["sweep_jobs_top_level"] = sum(1 for j in jobs if j[6] == 0)
     stats["sweep_jobs_in_module"] = sum(1 for j in jobs if j[6] == 1)
     stats["builtins"] = len(fns)
@@ -583,7 +630,8 @@ def confirm_builtin_events(ctx, raw, pool, n, classes, stats):
         if seen[dk] > (1 if ctx.quick() else 3):
             continue
         if k >= 0:
-            text = call_text(module, name, tuple_of(k, arity, mode, n), pool)
+            text = (indexed_call_text(module, name, arity, k) if mode == 2
+                    else call_text(module, name, tuple_of(k, arity, mode, n), pool))
         else:
             text = None
         items.append((kind, job, k, detail, text))
@@ -1134,10 +1182,34 @@ HISTORIES = [
 ]
 
 
+def runtime_symbol_histories(ctx):
+    """symbols (and other constants) that come into being at RUN time — string->symbol of computed strings — and are
+    mentioned as literals by a later program / by eval on the same engine"""
+    r = random.Random(ctx.seed * 4099 + 3)
+    hs = []
+    for v in range(4 if ctx.quick() else 24):
+        nm = "c07-rt-%s%d" % (r.choice(["sym", "\u00e9t\u00e9", "q", "long-name-with-dashes"]), r.randrange(10 ** 6))
+        a, b = nm[: len(nm) // 2], nm[len(nm) // 2:]
+        mk = "(define c07-rs%d (string->symbol (string-append \"%s\" \"%s\")))" % (v, a, b)
+        kind = v % 4
+        if kind == 0:
+            steps = [("T", mk, ("ok", "")), ("X", "(quote %s)" % nm, ("value", nm)), ("X", "(eq? c07-rs%d '%s)" % (v, nm), ("value", "#true"))]
+        elif kind == 1:
+            steps = [("T", mk, ("ok", "")), ("X", "(eval (list 'quote c07-rs%d))" % v, ("value", nm)), ("X", "(symbol->string '%s)" % nm, ("value", '"%s"' % nm))]
+        elif kind == 2:
+            steps = [("T", mk + "\n(eval (list 'quote c07-rs%d))" % v, ("ok", "")), ("X", "(list '%s)" % nm, ("value", "(%s)" % nm))]
+        else:
+            steps = [("T", "(define c07-many%d (map (lambda (i) (string->symbol (string-append \"%s-\" (number->string i)))) (range 0 40)))" % (v, nm), ("ok", "")),
+                     ("X", "'(%s-0 %s-39)" % (nm, nm), ("value", "(%s-0 %s-39)" % (nm, nm))),
+                     ("X", "(eq? (car c07-many%d) '%s-0)" % (v, nm), ("value", "#true"))]
+        hs.append(("runtime-made-symbol-%d" % kind, steps))
+    return hs
+
+
 def run_histories(ctx, classes, stats):
     out = os.path.join(SCRATCH, "hist.out")
     n_ok = 0
-    hists = list(HISTORIES)
+    hists = list(HISTORIES) + runtime_symbol_histories(ctx)
     # the multi-evaluation replays of the findings are histories too (no expectation beyond the property itself)
     listed = listed_finding_ids()
     for p in sorted(glob.glob(os.path.join(C.VERIF, "findings", "C07-K07*.txt"))):
@@ -1420,6 +1492,28 @@ def finding_replay_text(content):
     return "\n".join(l for l in content.split("\n") if not l.startswith("#!c07")).strip("\n")
 
 
+FIRST_LINES = ["#!/usr/bin/env steel", "#!/usr/bin/env st\u00e9el", "#!\u03bb", "#!/opt/\u00fcn\u00efcode/bin/steel --flag \u2713",
+               "#!", "#! \U0001d6d1 \u4e2d\u6587", "#!/usr/bin/env steel\r", ";; c\u00f6mment \u2014 \u00e9", "\ufeff", "#lang steel",
+               "#!/usr/bin/env steel -- \u00e9\u00e9\u00e9\u00e9\u00e9\u00e9\u00e9\u00e9\u00e9\u00e9\u00e9\u00e9"]
+NONASCII_SUFFIX = ["\u00e9", "\u03bb", "\u0436", "\U0001d6d1", "\u00df\u00fc", "\u4e2d"]
+
+
+def internationalize(r, prog):
+    """a well-formed program with non-ASCII identifiers, strings and comments, under a special first line
+    (`#!` interpreter lines, ASCII or not; a comment; a byte order mark; `#lang`)"""
+    names = sorted(set(re.findall(r"(?<![\w\-!?*<>=/+.#%])([a-z]+\d+)(?![\w\-!?*<>=/+.])", prog)))
+    r.shuffle(names)
+    for nm in names[: max(1, len(names) // 2)]:
+        new = nm + r.choice(NONASCII_SUFFIX)
+        prog = re.sub(r"(?<![\w\-!?*<>=/+.#%%])%s(?![\w\-!?*<>=/+.])" % re.escape(nm), new, prog)
+    prog = re.sub(r'"([^"\\\n]{0,20})"', lambda m: '"%s%s"' % (m.group(1), r.choice(NONASCII_SUFFIX)) if r.random() < 0.5 else m.group(0), prog)
+    lines = prog.split("\n")
+    for _ in range(r.randrange(0, 3)):
+        lines.insert(r.randrange(len(lines) + 1), ";; " + r.choice(NONASCII_SUFFIX) * r.randrange(1, 5))
+    tail = r.choice(["", "", "\n(define \u03c0 3)\n(* 2 \u03c0)", "\n'sym\u00e9", "\n\"\u00e9nd\""])
+    return r.choice(FIRST_LINES) + "\n" + "\n".join(lines) + tail
+
+
 def gen_texts(ctx, stats):
     from gen.progs import gen_program
     r = random.Random(ctx.seed * 1000003 + 7)
@@ -1452,6 +1546,12 @@ def gen_texts(ctx, stats):
         if r.random() < 0.85:
             p = mutate_tokens(r, p)
         add("grammar", "grammar", p.encode("utf-8", "replace"))
+    for _ in range(200 if quick else 6000):
+        p = internationalize(r, gen_program(r, r.choice([1, 2, 3]))[0])
+        if r.random() < 0.3:
+            first, _, rest = p.partition("\n")
+            p = first + "\n" + mutate_tokens(r, rest)
+        add("first-line", "firstline", p.encode("utf-8", "replace"))
     files = suite_files()
     stats["suite_files"] = len(files)
     n_suite = 500 if quick else 20000
@@ -1471,7 +1571,7 @@ def gen_texts(ctx, stats):
     picks = [kb for kb in base if kb[0].startswith(("corpus:", "finding:"))]
     items[:] = [kb for kb in items]
     picks += [kb for kb in base if kb[0].startswith("deep:") and (":100#" in kb[0] or ":1000#" in kb[0])]
-    rest = [kb for kb in base if kb[0].startswith(("grammar", "suite:", "tokens"))]
+    rest = [kb for kb in base if kb[0].startswith(("grammar", "suite:", "tokens", "firstline"))]
     r.shuffle(rest)
     picks += rest[: (300 if quick else 12000)]
     for k, b in picks:
